@@ -52,6 +52,12 @@ pub struct Durable {
     /// cross-directory renames not yet durable on the source side:
     /// (inode, source dir, source name, destination dir, destination name)
     pub moves: Vec<(Ino, Ino, String, Ino, String)>,
+    /// bookkeeping for the evidence only: current length per file inode,
+    /// inodes with an unsynced extending set_len whose new end no write has
+    /// reached, inodes for which such an extension has been data-synced
+    pub cur_len: BTreeMap<Ino, u64>,
+    pub ext_pending: BTreeSet<Ino>,
+    pub synced_ext: BTreeSet<Ino>,
     /// sync_probability > 0
     pub bg_sync: bool,
     pub block: Option<u64>,
@@ -77,6 +83,8 @@ pub struct CrashStats {
     pub admissible_max: u64,
     pub too_many_candidates: u64,
     pub adopted_non_base: u64,
+    /// durable files checked whose last data sync covered an extending set_len
+    pub synced_extensions: u64,
     /// set when an Undet entry / duplicate reachability makes the rest unknown
     pub stop: bool,
 }
@@ -106,6 +114,9 @@ impl Durable {
             files: BTreeMap::new(),
             dir_inodes,
             moves: vec![],
+            cur_len: BTreeMap::new(),
+            ext_pending: BTreeSet::new(),
+            synced_ext: BTreeSet::new(),
             bg_sync,
             block,
         }
@@ -117,6 +128,7 @@ impl Durable {
         for ev in evs {
             match ev {
                 Ev::CreatedFile(i) => {
+                    self.cur_len.insert(i, 0);
                     self.files.insert(i, FileDur::default());
                 }
                 Ev::CreatedDir(i) => {
@@ -124,6 +136,12 @@ impl Durable {
                     self.dents.insert(i, BTreeMap::new());
                 }
                 Ev::Write { ino, off, data } => {
+                    let end = off + data.len() as u64;
+                    let l = self.cur_len.entry(ino).or_default();
+                    if end >= *l {
+                        *l = end;
+                        self.ext_pending.remove(&ino);
+                    }
                     self.files
                         .entry(ino)
                         .or_default()
@@ -131,12 +149,24 @@ impl Durable {
                         .push(DataOp::Write { off, data });
                 }
                 Ev::SetLen { ino, len } => {
+                    let l = self.cur_len.entry(ino).or_default();
+                    if len > *l {
+                        self.ext_pending.insert(ino);
+                    } else if len < *l {
+                        self.ext_pending.remove(&ino);
+                    }
+                    *l = len;
                     self.files.entry(ino).or_default().log.push(DataOp::SetLen(len));
                 }
                 Ev::OpenTrunc { ino } => {
+                    self.cur_len.insert(ino, 0);
+                    self.ext_pending.remove(&ino);
                     self.files.entry(ino).or_default().log.push(DataOp::SetLen(0));
                 }
                 Ev::SyncFile(i, content) => {
+                    if self.ext_pending.remove(&i) {
+                        self.synced_ext.insert(i);
+                    }
                     let f = self.files.entry(i).or_default();
                     f.synced = content;
                     f.log.clear();
@@ -346,6 +376,17 @@ impl Durable {
         self.dents = new_dents;
         self.files = new_files;
         self.moves.clear();
+        self.ext_pending.clear();
+        self.synced_ext.clear();
+        self.cur_len = self
+            .v
+            .nodes
+            .iter()
+            .filter_map(|(i, n)| match n {
+                Node::File(c) => Some((*i, c.len() as u64)),
+                _ => None,
+            })
+            .collect();
         self.dir_inodes = self
             .v
             .nodes
@@ -448,6 +489,9 @@ impl Durable {
             } else {
                 st.asserted_paths += 1;
                 st.durable_files += 1;
+                if self.synced_ext.contains(&i) {
+                    st.synced_extensions += 1;
+                }
                 let got = obs(&child_path);
                 let content = match got {
                     Obs::File(c) => c,
